@@ -47,6 +47,8 @@ SCENARIOS = {
     "different-variables": [("probe", "f > a"), ("probe", "f > b")],
     "path-and-variable": [("probe", "g > f > a"), ("probe", "f > b")],
     "probe-and-caller": [("probe", "f > b"), ("calls",)],
+    # the second thread's probe is on g only, but it calls f while the first thread instruments f for the first time
+    "disjoint-functions": [("probe", "f > a"), ("probe", "g > c")],
     "three-threads": [("probe", "f > a"), ("probe", "f > b"), ("calls",)],
 }
 
@@ -105,6 +107,8 @@ def expected_for(spec, k):
         ev = ({"b": (k + 1) * 2}, {"b": (k + 1) * 2}, {"b": (k + 2) * 2})
     elif sel == "g > f > a":
         ev = ({"a": k + 1},)
+    elif sel == "g > c":
+        ev = ({"c": (k + 1) * 2},)
     return tuple(tuple(sorted(e.items())) for e in ev), results
 
 
